@@ -144,6 +144,13 @@ DeepLens  == IF Tier = "thorough" THEN {5, 6, 7, 8, 9} ELSE {6, 7, 8}
 \* a file at every level of the chain (thorough)
 Rungs(n) == {[p |-> DeepPre(i) \o <<N.f17>>, k |-> "file", c |-> "B", t |-> <<>>] : i \in 1..n}
 
+\* a second branch that ends in a directory of the same name at the same depth: with Rock Ridge both
+\* are relocated, and both placeholders must lead to their own directory
+Fork(n) == LET base == SubSeq(DeepPre(n), 1, n - 2)
+               m    == <<109, 48 + n - 1>>            \* "m<n-1>", sibling of l<n-1>
+           IN {DirEnt(base \o <<m>>), DirEnt(base \o <<m, Lvl(n)>>),
+               [p |-> base \o <<m, Lvl(n), N.f17>>, k |-> "file", c |-> "B", t |-> <<>>]}
+
 TreeOf(s) == Place(s.focus, s.ctx.pre) \cup Chain(s.ctx.pre) \cup s.ctx.extra
 RootCtx == [pre |-> <<>>, extra |-> {}]
 
@@ -207,6 +214,8 @@ PickFocus == /\ st.stage = 0
                 \/ \E f \in DeepFocus, n \in DeepLens :
                       st' = [stage |-> 1, fam |-> "deep", focus |-> f,
                              ctx |-> [pre |-> DeepPre(n), extra |-> IF Tier = "thorough" /\ n % 2 = 1 THEN Rungs(n) ELSE {}]]
+                \/ \E f \in {{F(N.f1, "A")}, {D(N.d6)}}, n \in DeepLens \cap {8, 9} :
+                      st' = [stage |-> 1, fam |-> "deep", focus |-> f, ctx |-> [pre |-> DeepPre(n), extra |-> Fork(n)]]
 Wrap == /\ st.stage = 1 /\ st.fam \in {"gen", "filt"}
         /\ \E c \in Contexts(st.focus) :
               /\ st.fam = "filt" => c.pre = <<N.d1>>
